@@ -17,11 +17,19 @@ def h(obj) -> str:
     return hashlib.blake2b(obj, digest_size=6).hexdigest()
 
 
+def hi(obj) -> int:
+    if not isinstance(obj, (str, bytes)):
+        obj = json.dumps(obj, sort_keys=True, default=str)
+    if isinstance(obj, str):
+        obj = obj.encode("utf-8", "surrogatepass")
+    return int.from_bytes(hashlib.blake2b(obj, digest_size=7).digest(), "big")
+
+
 class Rec:
     def __init__(self, prop: str) -> None:
         self.prop = prop
         self.evaluations = 0  # oracle evaluations
-        self.distinct: set[str] = set()  # hashes of distinct non-trivial case keys
+        self.distinct: set[int] = set()  # 56-bit hashes of distinct non-trivial case keys
         self.disjoint = 0  # distinct cases counted inside an enumerated slice (disjoint across shards)
         self.classes: collections.Counter = collections.Counter()
         self.monitor: collections.Counter = collections.Counter()
@@ -43,7 +51,7 @@ class Rec:
         self.monitor[name] += n
 
     def key(self, obj) -> None:
-        self.distinct.add(h(obj))
+        self.distinct.add(hi(obj))
 
     def mx(self, name: str, v: float) -> None:
         if v > self.maxima.get(name, float("-inf")):
